@@ -380,11 +380,8 @@ func mustHaveRespB(query, resp *dnsmsg.Msg, errRcode dnsmsg.RCode, tcp bool, siz
 	resp = makeEmptyRespM(query, errRcode)
 	defer dnsmsg.ReleaseMsg(resp)
 	// An answer to a query with edns0 has edns0 as well.
-	for _, rr := range query.Additionals {
-		if rr.Hdr().Type == dnsmsg.TypeOPT {
-			resp.Additionals = append(resp.Additionals, newEDNS0(udpSize))
-			break
-		}
+	if queryOpt(query) != nil {
+		resp.Additionals = append(resp.Additionals, newEDNS0(udpSize))
 	}
 	if tcp {
 		b, err = packRespTCP(resp, true)
@@ -431,13 +428,7 @@ func (r *router) handleReqMsg(ctx context.Context, m *dnsmsg.Msg, rc *RequestCon
 		dnsmsg.ToLowerName(q.Name)
 		r.handleReq(ctx, q, rc)
 
-		clientSupportEDNS0 := false
-		for _, rr := range m.Additionals {
-			if rr.Hdr().Type == dnsmsg.TypeOPT {
-				clientSupportEDNS0 = true
-				break
-			}
-		}
+		clientSupportEDNS0 := queryOpt(m) != nil
 
 		if clientSupportEDNS0 {
 			addOrReplaceOpt(rc.Response.Msg, udpSize)
